@@ -255,7 +255,7 @@ class Harness(cm.BaseA):
     ]
 
     def depth(self, tier):
-        return 2 if tier == "quick" else 3
+        return 2 if tier == "quick" else 4
 
     def bounds(self, tier):
         return {"depth": self.depth(tier), "worklist_max_volume": [50, 33.5], "sets": list(SETS)}
@@ -332,6 +332,8 @@ class Harness(cm.BaseA):
             V += self.addressing(ev, parsed, config, exact)
         for suffix, d in cm.compare_robot(robot, W, config, W["names"], exact=exact, check_comp=exact):
             V.append((f"C01/{suffix}", d))
+        for d in cm.callers_arrays_unchanged(W, config):
+            V.append(("C01/volume", d))
         if any(p["kind"] in "ADR" for p in parsed):
             res["nontrivial"] = self.canon(W, config)
         res["outcome"] += ":records" if parsed else ":norecords"
